@@ -10,6 +10,9 @@
 (* producing output out.  Pure is the function call -> output that generation   *)
 (* denotes; the action is enabled for exactly one output whatever the history.  *)
 (*   a call is the string "<compiler>|<schema>|<options>"                        *)
+(*   the output of a call is EVERYTHING the generator hands back through its     *)
+(*   exported results (code text, collected definitions in the order returned,   *)
+(*   error) -- the runner hashes all of it into `out`                             *)
 EXTENDS Integers, Sequences
 
 HInit(hist) == hist = <<>>
